@@ -55,16 +55,18 @@ Definition guessE (B : Z) (T : I.type) : Z :=
   floorF (I.midpoint (I.div pr (ln_guess pr T) (I.ln pr (I.fromZ pr B)))).
 
 Definition is_gt (c : Xcomparison) : bool := match c with Xgt => true | _ => false end.
+(** for I.sign_large: the interval is inside [0, +oo) (Xeq: it is the point 0) *)
+Definition is_ge (c : Xcomparison) : bool := match c with Xgt | Xeq => true | _ => false end.
 
 (** B^E <= |t|  and  |r - t| < B^(E-p+1) *)
 Definition accept_at (pr : F.precision) (B p : Z) (T Rv : I.type) (E : Z) : bool :=
-  is_gt (I.sign_large (I.sub pr (I.abs T) (ival pr B 1 E))) &&
+  is_ge (I.sign_large (I.sub pr (I.abs T) (ival pr B 1 E))) &&
   is_gt (I.sign_strict (I.sub pr (ival pr B 1 (E - p + 1)) (I.abs (I.sub pr Rv T)))).
 
 (** |t| < B^(E+1)  and  B^(E-p+1) <= |r - t| *)
 Definition reject_at (pr : F.precision) (B p : Z) (T Rv : I.type) (E : Z) : bool :=
   is_gt (I.sign_strict (I.sub pr (ival pr B 1 (E + 1)) (I.abs T))) &&
-  is_gt (I.sign_large (I.sub pr (I.abs (I.sub pr Rv T)) (ival pr B 1 (E - p + 1)))).
+  is_ge (I.sign_large (I.sub pr (I.abs (I.sub pr Rv T)) (ival pr B 1 (E - p + 1)))).
 
 Definition decide_ulp (pr : F.precision) (B p : Z) (T Rv : I.type) : verdict :=
   let E0 := guessE B T in
@@ -173,12 +175,11 @@ Definition T_ln1p (prt pra : F.precision) (slack B s e : Z) (Y0 : I.type) (steps
   let T1 := vln prt slack X1 Y0 steps in
   let T2 := I.lower_extent X in
   let T3 := if is_gt (I.sign_strict X1) then I.upper_extent (I.div pra X X1) else I.whole in
-  (* with r = sqrt (1 + x):  2 (1 - 1/r) <= 2 ln r = ln (1 + x) <= 2 (r - 1); both stay strictly away
-     from x (by about x^2/4 and 3x^2/4) *)
-  let S := I.sqrt pra X1 in
-  let T4 := if is_gt (I.sign_strict X1) && is_gt (I.sign_strict S) then
-              I.meet (I.lower_extent (I.mul pra (I.fromZ pra 2) (I.sub pra S (ione pra))))
-                     (I.upper_extent (I.mul pra (I.fromZ pra 2) (I.sub pra (ione pra) (I.inv pra S))))
+  (* x >= -1/2: with t = ln (1 + x) >= -2, x = exp t - 1 >= t + t^2/4 and |t| >= |x| / (1 + |x|), hence
+     t <= x - x^2 / (4 (1 + |x|)^2): a bound that stays strictly away from x *)
+  let A1 := I.add pra (ione pra) (I.abs X) in
+  let T4 := if is_ge (I.sign_large (I.add pra (I.mul pra (I.fromZ pra 2) X) (ione pra))) then
+              I.lower_extent (I.sub pra X (I.div pra (I.mul pra X X) (I.mul pra (I.fromZ pra 4) (I.mul pra A1 A1))))
             else I.whole in
   I.meet (I.meet T1 T4) (I.meet T2 T3).
 
